@@ -549,5 +549,107 @@ def hist_requests(rng, tier):
     return reqs
 
 
+def rel_requests(rng, tier):
+    """api-coverage block: PartialOrd (`partial_cmp`, `< <= > >=`), `!=`, `clone` on the comparison pairs"""
+    reqs = []
+    ns = [0, 1, 2, 3, 5, 9] + ([33, 64] if tier == "thorough" else [])
+    for n in ns:
+        vs = list(dict.fromkeys(neighbours(rng, n)))
+        k = len(vs)
+        picks = [(rng.randrange(k), rng.randrange(k)) for _ in range(10)] + [(i, i) for i in range(0, k, 4)] \
+            + [(i, i + 1) for i in range(0, k - 1, 2)]
+        for (i, j) in picks:
+            a, b = vs[i], vs[j]
+            reqs.append("C04 %s %s %s" % (rng.choice(["u.rel", "u.rel", "u.partial_cmp"]), wu(a), wu(b)))
+            for (sa, sb) in rng.sample([(1, 1), (1, -1), (-1, 1), (-1, -1)], 2):
+                reqs.append("C04 %s %s %s" % (rng.choice(["i.rel", "i.rel", "i.partial_cmp"]), wi(sa * a), wi(sb * b)))
+        for a in vs[:6]:
+            reqs.append("C04 u.clone %s" % wu(a))
+            reqs.append("C04 i.clone %s" % wi(signed(rng, a)))
+    return reqs
+
+
+def arb_bytes(rng, digs, stop=None, tail=b""):
+    """byte buffer that the `arbitrary` crate decodes into the u64 list `digs`: per element one odd continuation
+    byte and 8 little-endian bytes; then `stop` (an even byte, or nothing = exhausted input) and `tail`"""
+    out = bytearray()
+    for d in digs:
+        out.append(rng.randrange(256) | 1)
+        out += d.to_bytes(8, "little")
+    if stop is not None:
+        out.append(stop & 0xfe)
+    return bytes(out) + tail
+
+
+def harness_has(probe_line):
+    """does the harness built by this check run support an op?  (`arb.*` / `qc.*` exist only when the harness is built
+    with its `arbitrary` / `quickcheck` features — they are in its default feature set; if they are ever taken out of
+    it, these requests are simply not generated instead of coming back `unsupported`).  NB_C04_GENERATORS=0/1 overrides."""
+    import os, subprocess
+    ov = os.environ.get("NB_C04_GENERATORS")
+    if ov in ("0", "1"):
+        return ov == "1"
+    verif = os.path.dirname(os.path.dirname(os.path.dirname(os.path.abspath(__file__))))
+    for prof in ("release", "debug"):
+        binp = os.path.join(verif, "build", "cargo", prof, "nbharness")
+        if os.path.exists(binp):
+            try:
+                out = subprocess.run([binp], input=probe_line + "\n", capture_output=True, text=True, timeout=20).stdout
+                return not out.startswith("unsupported")
+            except Exception:  # noqa: BLE001
+                return False
+    return False
+
+
+def arbitrary_requests(rng, tier):
+    """api-coverage block: values produced by `arbitrary::Arbitrary` (byte buffers whose decoded digit vector has
+    0..3 high zero digits, is all zero, empty, ends in a truncated element, or stops early with unread bytes) and by
+    `quickcheck::Arbitrary` (many seeds x sizes; the harness compares with a reference and checks the shrinker)"""
+    reqs = []
+    have_arb, have_qc = harness_has("C04 arb.u x"), harness_has("C04 qc.u 1 1")
+    thorough = tier == "thorough"
+    lens = [0, 1, 2, 3, 5, 8] + ([17, 40] if thorough else [12])
+    for n in lens:
+        for pat in ("rand", "ones", "lowzero", "sparse"):
+            ds = digits(rng, n, pat) if n else []
+            if ds and ds[-1] == 0:
+                ds[-1] = 1
+            for hz in (0, 1, 2, 3):                       # redundant high zero digits: must be stripped
+                for stop in (None, 0, 2):
+                    body = arb_bytes(rng, ds + [0] * hz, stop, bytes(rng.randrange(256) for _ in range(rng.choice([0, 0, 3, 9]))) if stop is not None else b"")
+                    for sgn in (1, 0, 2, 3):              # BigInt: leading bool byte (odd = Plus)
+                        reqs.append("C04 arb.i%s %s" % (rng.choice(["", "_rest"]), wbytes(bytes([sgn]) + body)))
+                    reqs.append("C04 arb.u%s %s" % (rng.choice(["", "_rest"]), wbytes(body)))
+        # all-zero vectors of n digits (value zero: NoSign for both sign requests)
+        body = arb_bytes(rng, [0] * n, None)
+        reqs.append("C04 arb.u %s" % wbytes(body)); reqs.append("C04 arb.u_rest %s" % wbytes(body))
+        reqs.append("C04 arb.i %s" % wbytes(b"\x01" + body)); reqs.append("C04 arb.i_rest %s" % wbytes(b"\x00" + body))
+    # truncated last element (zero padded by fill_buffer), every cut position; a lone continuation byte
+    full = arb_bytes(rng, [MAX, rng.randrange(1, B)], None)
+    for cut in range(0, len(full) + 1):
+        reqs.append("C04 arb.u %s" % wbytes(full[:cut]))
+        reqs.append("C04 arb.u_rest %s" % wbytes(full[:cut]))
+        reqs.append("C04 arb.i %s" % wbytes(b"\x01" + full[:cut]))
+        reqs.append("C04 arb.i_rest %s" % wbytes(b"\xfe" + full[:cut]))
+    reqs += ["C04 arb.u x", "C04 arb.i x", "C04 arb.u_rest x", "C04 arb.i_rest x", "C04 arb.u x01", "C04 arb.i x0101"]
+    for _ in range(400 if thorough else 60):
+        raw = bytes(rng.randrange(256) for _ in range(rng.randrange(0, 80)))
+        reqs.append("C04 arb.%s %s" % (rng.choice(["u", "u_rest", "i", "i_rest"]), wbytes(raw)))
+    for d in (0, 1, 5):
+        reqs.append("C04 arb.u_size_hint %d" % d)
+        reqs.append("C04 arb.i_size_hint %d" % d)
+    if not have_arb:
+        reqs = []
+    # quickcheck
+    for size in (1, 2, 3, 5, 10, 30, 100):
+        for _ in range(60 if thorough else 12):
+            seed = rng.randrange(1 << 64)
+            if have_qc:
+                reqs.append("C04 qc.u %d %d" % (size, seed))
+                reqs.append("C04 qc.i %d %d" % (size, seed))
+    return reqs
+
+
 def gen(rng, tier):
-    return cmp_requests(rng, tier) + ctor_requests(rng, tier) + hist_requests(rng, tier)
+    return (cmp_requests(rng, tier) + ctor_requests(rng, tier) + hist_requests(rng, tier)
+            + rel_requests(rng, tier) + arbitrary_requests(rng, tier))
